@@ -7,7 +7,11 @@ package transports
 //                the station derives its key) × tag lengths 0..300: Obfuscate error, or TryReveal(Obfuscate(tag)) == tag;
 //                two obfuscations of the same tag by a randomised variant must differ in their first 32 bytes
 //                (the ephemeral key representative; for XOR the random pad, judged only for tags of 16+ bytes);
-//                TryReveal on arbitrary bytes must not panic
+//                TryReveal on arbitrary bytes must not panic;
+//                the SAME encoded buffer revealed repeatedly (right key twice; wrong key(s) then right key; right, wrong, right –
+//                what a station trying several private keys on the bytes it read does) must yield the tag every time the right
+//                key is used, TryReveal must leave the caller's buffer byte-for-byte unchanged whatever the key, and a result
+//                returned earlier must not change under a later reveal
 //   anypb        for every transport params message type × generated values × {type URL kept, stripped, legacy "tapdance."
 //                URL} × {object handed over directly, carried inside a marshalled ClientToStation}: UnmarshalAnypbTo yields a
 //                message proto.Equal to the original; a non-empty URL of another type must be refused
@@ -123,8 +127,12 @@ func TestVerifC15Obfuscators(t *testing.T) {
 					tag[i] = byte(i)
 				}
 			}
+			var wrong [][32]byte
+			for j := 1; j <= 3; j++ {
+				wrong = append(wrong, keys[(ki+j)%len(keys)].priv)
+			}
 			for _, ob := range obfs {
-				c15ObfCase(rec, ob, kp, tag)
+				c15ObfCase(rec, ob, kp, tag, wrong)
 			}
 		}
 	}
@@ -141,16 +149,22 @@ func TestVerifC15Obfuscators(t *testing.T) {
 		rng.Read(priv[:])
 		for _, ob := range obfs {
 			rec.CaseCheap(fmt.Sprintf("arbitrary %s %s", ob.name, kit.HexN(b, 16)))
+			snap := append([]byte(nil), b...)
 			if pk, v, st := c15Try(func() { ob.o.TryReveal(b, priv) }); pk {
 				rec.Violation("obfs:"+ob.name+":reveal-panic-on-arbitrary-bytes", "TryReveal panicked on arbitrary bytes",
-					map[string]interface{}{"input": kit.Hex(b), "panic": fmt.Sprint(v), "stack": st})
+					map[string]interface{}{"input": kit.Hex(snap), "panic": fmt.Sprint(v), "stack": st})
+			}
+			if !bytes.Equal(b, snap) {
+				rec.Violation("obfs:"+ob.name+":reveal-modifies-its-input", "TryReveal changed the caller's buffer",
+					map[string]interface{}{"case": "arbitrary bytes", "key": "arbitrary", "first_changed_byte": c15FirstDiff(b, snap), "before": kit.HexN(snap, 56), "after": kit.HexN(b, 56)})
+				copy(b, snap)
 			}
 			rec.Count("arbitrary_decodes", 1)
 		}
 	}
 }
 
-func c15ObfCase(rec *kit.Rec, ob c15Obf, kp c15KeyPair, tag []byte) {
+func c15ObfCase(rec *kit.Rec, ob c15Obf, kp c15KeyPair, tag []byte, wrong [][32]byte) {
 	desc := fmt.Sprintf("%s key=%s:%s taglen=%d", ob.name, kp.kind, kit.HexN(kp.priv[:], 4), len(tag))
 	rec.CaseCheap(desc)
 	rec.Count("evaluations", 1)
@@ -193,6 +207,13 @@ func c15ObfCase(rec *kit.Rec, ob c15Obf, kp c15KeyPair, tag []byte) {
 		return
 	}
 	rec.Count("accepted_roundtrips", 1)
+	if !bytes.Equal(encCopy, enc) {
+		rec.Violation("obfs:"+ob.name+":reveal-modifies-its-input", "TryReveal changed the caller's buffer (reveal with the matching key)",
+			map[string]interface{}{"case": desc, "key": "right", "first_changed_byte": c15FirstDiff(encCopy, enc), "before": kit.HexN(enc, 56), "after": kit.HexN(encCopy, 56)})
+	}
+	if !c15RevealSchedules(rec, ob, kp, desc, orig, enc, wrong) {
+		return
+	}
 	if len(enc) >= 32 && (ob.name == "gcm" || ob.name == "ctr") {
 		rec.Distinct("representative_top_bits_"+ob.name, enc[31]>>6) // all four values must be exercised: the reveal side masks them
 	}
@@ -231,6 +252,85 @@ func c15ObfCase(rec *kit.Rec, ob c15Obf, kp c15KeyPair, tag []byte) {
 	if rec.WantSample() && len(tag) == 32 {
 		rec.Sample(map[string]interface{}{"case": desc, "encoded_len": len(enc), "encoded_head": kit.HexN(enc, 12), "revealed_equal": true})
 	}
+}
+
+func c15FirstDiff(a, b []byte) int {
+	n := len(a)
+	if len(b) < n {
+		n = len(b)
+	}
+	for i := 0; i < n; i++ {
+		if a[i] != b[i] {
+			return i
+		}
+	}
+	if len(a) != len(b) {
+		return n
+	}
+	return -1
+}
+
+// c15RevealSchedules reveals ONE buffer several times, as a station does that tries each of its private keys on the bytes it
+// read: 'R' = the matching key, 'w' = a non-matching key.  The buffer is never restored between steps.
+func c15RevealSchedules(rec *kit.Rec, ob c15Obf, kp c15KeyPair, desc string, tag, enc []byte, wrong [][32]byte) bool {
+	ok := true
+	for _, sched := range []string{"RR", "wR", "wwwR", "RwR"} {
+		buf := append([]byte(nil), enc...)
+		type res struct {
+			step int
+			out  []byte
+		}
+		var rights []res
+		wi := 0
+		for step, k := range sched {
+			key, kind := kp.priv, "right"
+			if k == 'w' {
+				key, kind = wrong[wi%len(wrong)], "wrong"
+				wi++
+			}
+			if bytes.Equal(key[:], kp.priv[:]) && kind == "wrong" {
+				continue
+			}
+			sdesc := fmt.Sprintf("%s schedule=%s step=%d(%s key)", desc, sched, step, kind)
+			rec.CaseCheap(sdesc)
+			rec.Count("same_buffer_reveals", 1)
+			before := append([]byte(nil), buf...)
+			var out []byte
+			var err error
+			if pk, v, st := c15Try(func() { out, err = ob.o.TryReveal(buf, key) }); pk {
+				rec.Violation("obfs:"+ob.name+":reveal-panic-on-own-encoding", "TryReveal panicked on Obfuscate's output", map[string]interface{}{"case": sdesc, "panic": fmt.Sprint(v), "stack": st})
+				return false
+			}
+			if !bytes.Equal(buf, before) {
+				ok = false
+				rec.Violation("obfs:"+ob.name+":reveal-modifies-its-input", "TryReveal changed the caller's buffer",
+					map[string]interface{}{"case": sdesc, "key": kind, "reveal_error": fmt.Sprint(err), "first_changed_byte": c15FirstDiff(buf, before),
+						"before": kit.HexN(before, 56), "after": kit.HexN(buf, 56)})
+			}
+			if kind == "right" {
+				if err != nil || !bytes.Equal(out, tag) {
+					ok = false
+					rec.Violation("obfs:"+ob.name+":right-key-fails-on-a-buffer-revealed-before", "the matching key does not yield the tag from a buffer that an earlier TryReveal has already looked at",
+						map[string]interface{}{"case": sdesc, "reveal_error": fmt.Sprint(err), "revealed": kit.HexN(out, 16), "tag": kit.HexN(tag, 16),
+							"buffer_still_equals_encoding": bytes.Equal(buf, enc)})
+				} else {
+					rights = append(rights, res{step, out})
+				}
+			}
+		}
+		for _, r := range rights { // results handed out earlier must still be the tag
+			if !bytes.Equal(r.out, tag) {
+				ok = false
+				rec.Violation("obfs:"+ob.name+":earlier-result-changed-by-later-reveal", "a tag returned by TryReveal changed when the same buffer was revealed again",
+					map[string]interface{}{"case": fmt.Sprintf("%s schedule=%s result-of-step=%d", desc, sched, r.step), "now": kit.HexN(r.out, 16), "tag": kit.HexN(tag, 16)})
+			}
+		}
+		if ok {
+			rec.Count("same_buffer_schedules_ok", 1)
+			rec.Distinct("nontrivial", desc, sched)
+		}
+	}
+	return ok
 }
 
 // ---- anypb --------------------------------------------------------------------------------------------------------------
@@ -349,6 +449,7 @@ func TestVerifC15Anypb(t *testing.T) {
 					if dstMode == "prepopulated" {
 						dst = c15GenParams(rng, typ)
 					}
+					valueBefore := append([]byte(nil), src.GetValue()...)
 					var uerr error
 					if pk, v, st := c15Try(func() { uerr = UnmarshalAnypbTo(src, dst) }); pk {
 						rec.Violation("anypb:panic", "UnmarshalAnypbTo panicked", map[string]interface{}{"case": desc, "panic": fmt.Sprint(v), "stack": st})
@@ -357,6 +458,11 @@ func TestVerifC15Anypb(t *testing.T) {
 					if uerr != nil {
 						rec.Violation("anypb:"+urlMode+":decoder-rejects-own-encoding", "UnmarshalAnypbTo refused a params message packed by anypb.New",
 							map[string]interface{}{"case": desc, "error": uerr.Error()})
+						continue
+					}
+					if again := c15NewOf(typ); UnmarshalAnypbTo(src, again) != nil || !proto.Equal(again, orig) || !bytes.Equal(src.GetValue(), valueBefore) {
+						rec.Violation("anypb:"+urlMode+":second-decode-differs-or-input-modified", "unpacking the same Any a second time fails or differs, or its packed bytes were modified",
+							map[string]interface{}{"case": desc, "value_unchanged": bytes.Equal(src.GetValue(), valueBefore)})
 						continue
 					}
 					if !proto.Equal(dst, orig) {
